@@ -24,7 +24,7 @@ META = dict(
                       "[-2,4n] and e in [0,255] symbolic.  (B) raw signatures of every length "
                       "0..2L+2 on every curve, DER signatures: every byte string of length 0..8 "
                       "and two-INTEGER templates (trailing byte, truncation, substituted byte)",
-                thorough="(A) p up to 61; (B) DER up to 10 bytes"),
+                thorough="(A) n <= 19 (p up to 127 for curve search); (B) DER up to 10 bytes"),
     stubs=eg.STUBS + ["(B) Public_key.verifies is a recording stub returning an arbitrary "
                       "boolean (its own behaviour is part A)"],
     outside=["the group law (C06/C07)", "verification algebra at production-size orders"],
@@ -250,7 +250,7 @@ def jobs(tier, seed):
     js = [Job("eg-validate", "harness.egcommon:validate_eg", tier=tier)]
     curves = E.toy_curves(tier)
     for i, tc in enumerate(curves):
-        if tc["n"] > (13 if tier == "quick" else 43):
+        if tc["n"] > (13 if tier == "quick" else 19):
             continue
         for q in range(1, tc["n"]):
             js.append(Job("rule/%d/q%d" % (i, q), "harness.c02:rule", tier=tier, idx=i, q=q))
